@@ -271,6 +271,10 @@ func (p *Packet) SetPayload(data []byte) (int, error) {
 	if afc == AdaptationFieldFlag {
 		return 0, gots.ErrNoPayload
 	}
+	if p.payloadStart() > PacketSize || p.stuffingStart() > PacketSize {
+		// adaptation_field_length or the optional fields run past the packet
+		return 0, gots.ErrInvalidPacketLength
+	}
 	freeSpace := p.freeSpace()
 	if freeSpace > len(data) {
 		p.SetAdaptationFieldControl(PayloadAndAdaptationFieldFlag)
